@@ -10,7 +10,6 @@ import (
 	"testing"
 	"time"
 
-	"github.com/0xReLogic/Helios/internal/loadbalancer"
 	"github.com/0xReLogic/Helios/verifharness/lab"
 	"github.com/anishathalye/porcupine"
 	"pgregory.net/rapid"
@@ -59,9 +58,13 @@ type concResult struct {
 
 // runConc executes the scripts. All actors are released by a spin barrier.
 func runConc(c concCase) concResult {
-	pool := loadbalancer.NewWebSocketPool(c.MaxIdle, 0, time.Hour) // nothing goes stale: time does not pass in this form
-	var clock, nextID int64
 	var res concResult
+	pool, stale := cachedPool(c.MaxIdle, 0, time.Hour, c.Backends) // nothing goes stale: time does not pass in this form
+	if stale != "" {
+		res.viol = stale
+		return res
+	}
+	var clock, nextID int64
 	var mu sync.Mutex // protects res (appended after each call, outside the measured interval)
 	violate := func(format string, a ...any) {
 		mu.Lock()
